@@ -114,7 +114,9 @@ shapes = [
 ]
 for sig in shapes:
     for kind in ("sync", "async"):
-        add(kind=kind, sig=sig, family="signature", limit=rnd.choice([None, 2]), policy=rnd.choice([None, "lru"]))
+        add(kind=kind, sig=sig, family="signature")
+        if rnd.random() < 0.5:
+            add(kind=kind, sig=sig, family="signature", limit=2, policy=rnd.choice([None, "lru"]))
 for recv in ("ref", "val", "mut"):
     for kind in ("sync", "async"):
         for sig in ([], ["u32"], ["String", "char"]):
